@@ -51,6 +51,54 @@ type Case struct {
 	Cond       int    `json:"cond"` // 0 none 1 true 2 false
 	CondStatus int    `json:"cond_status,omitempty"`
 	Mode       string `json:"mode"` // "run" TaskRunner.Run, "stage" through the scheduler, "cli" through the binary
+	// Rerun (in-process modes): every exit status, the condition's included, is read from a file when the command
+	// runs, and the task is run a second time on the same runner with other statuses in the files - the command and
+	// condition texts are the same both times, their outcome is not. The second run is judged like the first.
+	Rerun *Rerun `json:"rerun,omitempty"`
+}
+
+// Rerun holds the statuses of the second run and whether it uses the same task object again.
+type Rerun struct {
+	Before     []int `json:"before,omitempty"`
+	Cmds       []int `json:"cmds"`
+	After      []int `json:"after,omitempty"`
+	CondStatus int   `json:"cond_status"` // used when the task has a condition at all (Cond != 0)
+	SameObject bool  `json:"same_object"`
+}
+
+// second is the case the second run is judged by.
+func (c Case) second() Case {
+	d := c
+	d.Rerun = nil
+	cp := func(cs []Cmd, st []int) []Cmd {
+		out := append([]Cmd{}, cs...)
+		for i := range out {
+			out[i].Status = st[i]
+		}
+		return out
+	}
+	d.Before, d.Cmds, d.After = cp(c.Before, c.Rerun.Before), cp(c.Cmds, c.Rerun.Cmds), cp(c.After, c.Rerun.After)
+	if c.Cond != 0 {
+		d.Cond, d.CondStatus = 1, 0
+		if c.Rerun.CondStatus != 0 {
+			d.Cond, d.CondStatus = 2, c.Rerun.CondStatus
+		}
+	}
+	return d
+}
+
+// writeStatuses puts the statuses of c where the commands of a rerun case read them.
+func writeStatuses(c Case, dir string) {
+	for _, l := range [][]Cmd{c.Before, c.Cmds, c.After} {
+		for _, cm := range l {
+			os.WriteFile(filepath.Join(dir, "st."+cm.ID), []byte(fmt.Sprint(cm.Status)), 0o644)
+		}
+	}
+	st := 0
+	if c.Cond == 2 {
+		st = c.CondStatus
+	}
+	os.WriteFile(filepath.Join(dir, "st.cond"), []byte(fmt.Sprint(st)), 0o644)
 }
 
 func exitShape(shape, n int) string {
@@ -67,6 +115,11 @@ func exitShape(shape, n int) string {
 }
 
 func (c Cmd) text(trace string, withVar bool) string {
+	return c.textFrom(trace, withVar, "")
+}
+
+// textFrom: with stDir set the exit status is read from the file st.<id> there when the command runs.
+func (c Cmd) textFrom(trace string, withVar bool, stDir string) string {
 	id := c.ID
 	if withVar {
 		// V is set by every variation, W only by the even ones: a later variation must not inherit it
@@ -76,8 +129,12 @@ func (c Cmd) text(trace string, withVar bool) string {
 	if c.Sleep {
 		sl = "sleep 0.01; "
 	}
+	ex := exitShape(c.Shape, c.Status)
+	if stDir != "" {
+		ex = fmt.Sprintf("exit $(cat %s)", filepath.Join(stDir, "st."+c.ID))
+	}
 	return fmt.Sprintf("printf 'S:%%s\\n' \"%s\" >> %s; printf 'S:%%s\\n' \"%s\"; %sprintf 'E:%%s\\n' \"%s\" >> %s; %s",
-		id, trace, id, sl, id, trace, exitShape(c.Shape, c.Status))
+		id, trace, id, sl, id, trace, ex)
 }
 
 type expect struct {
@@ -152,14 +209,18 @@ func model(c Case) expect {
 func mkTask(c Case, trace string) *task.Task {
 	tk := task.NewTask()
 	tk.Name = "t"
+	stDir := ""
+	if c.Rerun != nil {
+		stDir = filepath.Dir(trace)
+	}
 	for _, b := range c.Before {
-		tk.Before = append(tk.Before, b.text(trace, false))
+		tk.Before = append(tk.Before, b.textFrom(trace, false, stDir))
 	}
 	for _, cm := range c.Cmds {
-		tk.Commands = append(tk.Commands, cm.text(trace, c.NVar > 0))
+		tk.Commands = append(tk.Commands, cm.textFrom(trace, c.NVar > 0, stDir))
 	}
 	for _, a := range c.After {
-		tk.After = append(tk.After, a.text(trace, false))
+		tk.After = append(tk.After, a.textFrom(trace, false, stDir))
 	}
 	for i := 0; i < c.NVar; i++ {
 		v := map[string]string{"V": fmt.Sprintf("v%d", i)}
@@ -174,6 +235,9 @@ func mkTask(c Case, trace string) *task.Task {
 		tk.Condition = "true"
 	case 2:
 		tk.Condition = fmt.Sprintf("exit %d", c.CondStatus)
+	}
+	if c.Rerun != nil && c.Cond != 0 {
+		tk.Condition = fmt.Sprintf("exit $(cat %s)", filepath.Join(stDir, "st.cond"))
 	}
 	return tk
 }
@@ -199,11 +263,37 @@ func runInProcess(c Case, dir string) (vs []Violation) {
 	trace := filepath.Join(dir, fmt.Sprintf("trace%d", caseSeq))
 	defer os.Remove(trace)
 	tk := mkTask(c, trace)
-	before := tk.ExitCode
 	r, err := runner.NewTaskRunner()
 	if err != nil {
 		return []Violation{{"C06 C07", "NewTaskRunner: " + err.Error()}}
 	}
+	if c.Rerun == nil {
+		return runOnce(c, tk, r, trace, false)
+	}
+	writeStatuses(c, dir)
+	first := c
+	first.Rerun = nil
+	vs = runOnce(first, tk, r, trace, false)
+	for i := range vs {
+		vs[i].Msg = "first run: " + vs[i].Msg
+	}
+	os.Remove(trace)
+	sec := c.second()
+	writeStatuses(sec, dir)
+	if !c.Rerun.SameObject {
+		tk = mkTask(c, trace) // same texts, new object
+	}
+	for _, v := range runOnce(sec, tk, r, trace, c.Rerun.SameObject) {
+		vs = append(vs, Violation{v.Props, fmt.Sprintf("second run on the same runner (same task object: %v), judged as %s: %s", c.Rerun.SameObject, canon(sec), v.Msg)})
+	}
+	return vs
+}
+
+// runOnce runs tk once on r and judges the run by c. With reused set tk has been run before: what the run returns,
+// what it executes and the fields it has reason to set are judged; a flag or status left over from the earlier run
+// is not (the statements do not say what a task object records when it is run again).
+func runOnce(c Case, tk *task.Task, r *runner.TaskRunner, trace string, reused bool) (vs []Violation) {
+	before := tk.ExitCode
 	out := &syncBuf{}
 	r.Stdout, r.Stderr = out, io.Discard
 	var rerr error
@@ -260,14 +350,18 @@ func runInProcess(c Case, dir string) (vs []Violation) {
 	if len(so) < len(e.stdout) || strings.Join(so[:len(e.stdout)], " ") != strings.Join(e.stdout, " ") || len(so) > len(e.stdout)+len(e.optional)/2 {
 		fail("C06", "stdout tokens: got %v want %v", so, e.stdout)
 	}
-	if tk.Skipped != e.skipped {
+	if tk.Skipped != e.skipped && (!reused || e.skipped) {
 		fail("C06 C07", "Skipped=%v, want %v", tk.Skipped, e.skipped)
 	}
 	// C07: status
 	if (rerr != nil) != e.failed {
 		fail("C07", "returned error %v, task failed=%v", rerr, e.failed)
 	}
-	if !e.beforeFailed { // Errored/ExitCode after a failing before-hook are not asserted
+	if !e.beforeFailed && reused {
+		if e.errored && (!tk.Errored || tk.Error == nil || int(tk.ExitCode) != e.exit) {
+			fail("C07", "a command failed with status %d: Errored=%v Error=%v ExitCode=%d", e.exit, tk.Errored, tk.Error, tk.ExitCode)
+		}
+	} else if !e.beforeFailed { // Errored/ExitCode after a failing before-hook are not asserted
 		if tk.Errored != e.errored {
 			fail("C07", "Errored=%v, want %v", tk.Errored, e.errored)
 		}
@@ -281,7 +375,7 @@ func runInProcess(c Case, dir string) (vs []Violation) {
 			fail("C07", "ExitCode=%d, want %d", tk.ExitCode, e.exit)
 		}
 	}
-	if e.skipped && tk.ExitCode != before {
+	if e.skipped && tk.ExitCode != before && !reused {
 		fail("C07", "a skipped task records an exit status: %d -> %d", before, tk.ExitCode)
 	}
 	return vs
@@ -381,6 +475,12 @@ func record(c Case) {
 	if c.Allow && failingPos >= 0 {
 		cls = append(cls, "allowed-failure")
 	}
+	if c.Rerun != nil {
+		cls = append(cls, "run-twice-on-one-runner")
+		if e2 := model(c.second()); e2.failed != e.failed || e2.skipped != e.skipped {
+			cls = append(cls, "second-run-ends-differently")
+		}
+	}
 	drv.Eval(cls...)
 	hook := len(c.Before)+len(c.After) > 0
 	if drv.Prop() == "C07" {
@@ -447,12 +547,33 @@ func genCase(rt *rapid.T, maxCmds int) Case {
 	return c
 }
 
+// genRerun draws the statuses of a second run.
+func genRerun(rt *rapid.T, c Case) *Rerun {
+	sts := func(label string, n int) []int {
+		out := make([]int, n)
+		for i := range out {
+			if rapid.IntRange(0, 2).Draw(rt, label+"_fail2") == 0 {
+				out[i] = rapid.IntRange(1, 255).Draw(rt, label+"_status2")
+			}
+		}
+		return out
+	}
+	r := &Rerun{Before: sts("b", len(c.Before)), Cmds: sts("c", len(c.Cmds)), After: sts("a", len(c.After)), SameObject: rapid.Bool().Draw(rt, "same-object")}
+	if rapid.Bool().Draw(rt, "cond2-false") {
+		r.CondStatus = rapid.IntRange(1, 255).Draw(rt, "condst2")
+	}
+	return r
+}
+
 // TestRandom: random larger tasks (up to 6 commands, 2 hooks each side, all exit shapes, statuses 1..255).
 func TestRandom(t *testing.T) {
 	dir := t.TempDir()
 	rapid.Check(t, func(rt *rapid.T) {
 		c := genCase(rt, 6)
 		c.Mode = rapid.SampledFrom([]string{"run", "run", "stage"}).Draw(rt, "mode")
+		if rapid.IntRange(0, 2).Draw(rt, "rerun") == 0 {
+			c.Rerun = genRerun(rt, c)
+		}
 		drv.Sample(c)
 		decide(rt, "random", c, dir)
 	})
